@@ -155,8 +155,8 @@ func checkC18(p *Prog, r *Report) {
 		tn := p.Func(Rel(aolTypesPkg), "validateTopicName")
 		okT := false
 		if tn != nil {
-			for _, pat := range regexConstsIn(p, tn) {
-				if regexExcludesByte(pat, b) {
+			if spec, _, okS := summariseLengthRegexValidator(p, tn, 0); okS && spec.Pat != "" {
+				if admits, err := LangAdmitsByte(spec, b); err == nil && !admits {
 					okT = true
 				}
 			}
